@@ -23,6 +23,7 @@ def startTop (s : St) (t : Nat) (op : TopOp) : St :=
   | .gc => s.push [.gc]
   | .poll => s.push [.poll]
   | .frameEnd => s.push [.gc, .poll]
+  | .clearTrackers => clearTrackers s
   | .wSysEvent sys ty pid =>
     let (d, s) := (s.emit (.send pid)).fresh
     let s := { s with data := upd s.data d (some { kind := .sys, ty := ty, pid := pid, target := 0, cnt := 0, taken := false }) }
